@@ -11,7 +11,7 @@
    unchanged and in order.  Trusted: numpy draws from the N(mean, cov) it is given. *)
 From mathcomp Require Import all_ssreflect all_fingroup all_algebra.
 From Coq Require Import ZArith QArith List.
-From TJ Require Import Base.Imp Base.Fops Gen.KernelPyx Model.KernelRun Proofs.KernelChar Proofs.KernelAlg Proofs.CompleteSquare Proofs.PostLayout Proofs.KernelLoops.
+From TJ Require Import Base.Imp Base.Fops Gen.KernelPyx Model.KernelRun Proofs.KernelChar Proofs.KernelAlg Proofs.CompleteSquare Proofs.PostLayout Proofs.KernelLoops Proofs.KernelBridge Proofs.KernelBridge2.
 Set Implicit Arguments. Unset Strict Implicit. Unset Printing Implicit Defensive.
 Import GRing.Theory.
 Local Open Scope ring_scope.
@@ -36,6 +36,24 @@ Theorem C03_worker_posterior {F} (fo : fops F) (orc : oracles F) (nt nl : nat) (
   (forall i j, (i < nl)%coq_nat -> (j < nl)%coq_nat ->
      v_Ainv (fst (likelihood_worker fo orc (Z.of_nat nt) (Z.of_nat nl) 1%Z s0)) i j = pAinv fo nt (v_M_T s0) (v_s_ivar s0) (v_Lambda s0) i j).
 Proof. exact (worker_posterior fo orc nt nl s0 Y U x). Qed.
+
+(* ... and in matrix form over any MathComp field (Proofs/KernelBridge2.v): after the posterior path the generated worker holds
+   Ainv = Lambda^-1 + M^T C_s^-1 M and a vector a with  Ainv a = M^T C_s^-1 y + Lambda^-1 mu  (given the solver's contract), and
+   returns the marginal path's value: the (a, A) of C03_exact_conditional, with the same C_s, mu, Lambda as the marginal likelihood *)
+Theorem C03_posterior_is_conditional (F : fieldType) lg pi_ pw mn ab inf (orc : oracles F) (nt nl : nat) (s0 : kst (F := F)) (Y U : arr2 F) (x : arr1 F) :
+  let fo := mc_fops lg pi_ pw mn ab inf in
+  let MT := v_M_T s0 in let w := v_s_ivar s0 in let mu := v_mu s0 in let La := v_Lambda s0 in let y := v_rv s0 in
+  o_inv orc nl (Atmp_arg fo nt nl s0) = Some Y ->
+  o_lu orc nt (Btmp_arg fo nt nl s0) = Some U ->
+  o_solve orc nl (fun a b => if in2 nl nl a b then pAinv fo nt MT w La a b else Y a b)
+              (fun a => if Nat.ltb a nl then pa_rhs fo nt MT w mu La y a else v_a s0 a) = Some x ->
+  let Ainv := dg nl (fun i => (La i)^-1) + (Mx nt nl MT)^T *m dg nt w *m Mx nt nl MT in
+  Ainv *m cv nl x = cv nl (pa_rhs fo nt MT w mu La y) ->
+  let s' := fst (likelihood_worker fo orc (Z.of_nat nt) (Z.of_nat nl) 1%Z s0) in
+  mx2 nl nl (v_Ainv s') = Ainv /\
+  Ainv *m cv nl (v_a s') = (Mx nt nl MT)^T *m dg nt w *m cv nt y + dg nl (fun i => (La i)^-1) *m cv nl mu /\
+  snd (likelihood_worker fo orc (Z.of_nat nt) (Z.of_nat nl) 1%Z s0) = snd (likelihood_worker fo orc (Z.of_nat nt) (Z.of_nat nl) 0%Z s0).
+Proof. exact (@worker_posterior_is_conditional F lg pi_ pw mn ab inf orc nt nl s0 Y U x). Qed.
 
 Theorem C03_layout_as_modelled : posterior_layout_as_modelled = true.
 Proof. exact posterior_layout. Qed.
@@ -83,6 +101,7 @@ Proof. reflexivity. Qed.
 
 Print Assumptions C03_same_state_as_marginal.
 Print Assumptions C03_worker_posterior.
+Print Assumptions C03_posterior_is_conditional.
 Print Assumptions C03_layout_as_modelled.
 Print Assumptions C03_posterior_mean.
 Print Assumptions C03_exact_conditional.
